@@ -31,7 +31,7 @@ theorem mem_ite_sadd_self {α : Type} [DecidableEq α] {c : Prop} [Decidable c] 
   simp [hc, mem_sadd]
 
 structure Inv (s : GState R O) : Prop where
-  c0 : s.started = false → s.spawning = false ∧ s.spawned = [] ∧ s.everOn = false ∧ s.firstDone = false ∧
+  c0 : s.started = false → s.spawning = false ∧ s.spawned = [] ∧ s.everOn = false ∧
         ∀ ro, s.workers ro = none
   c1 : s.spawning = true → s.blocker = true
   c1' : s.spawning = false → s.pending = []
@@ -41,23 +41,22 @@ structure Inv (s : GState R O) : Prop where
   c4' : ∀ r, r ∈ s.detached → aget r s.spawned = some true → r ∈ s.listed
   c5 : ∀ ro w, s.workers ro = some w → w.pc ≠ .queued → w.pc ≠ .idle → ro ∈ s.indexedOnce
   c6 : ∀ r, r ∈ s.detached → (aget r s.spawned).isSome = true
-  c7 : s.started = true → s.spawning = false → s.firstDone = true
-  c8 : ∀ r, r ∈ s.first → aget r s.spawned = some true
+  c8 : ∀ r, r ∈ s.first → r ∈ s.listed ∨ aget r s.spawned = some true ∨ r ∈ s.leakedK
   a : s.everOn = false → s.handled = false ∧
         ∀ ro w, s.workers ro = some w → w.gated = true ∧
           (w.pc = .queued ∨ w.pc = .indexed ∨ w.pc = .waiting ∨ w.pc = .idle)
   b : s.everOn = true → Ready1 s
 
 theorem inv_init : Inv (GState.init : GState R O) := by
-  refine ⟨?_, ?_, ?_, ?_, ?_, ?_, ?_, ?_, ?_, ?_, ?_, ?_, ?_⟩ <;> simp [GState.init]
+  refine ⟨?_, ?_, ?_, ?_, ?_, ?_, ?_, ?_, ?_, ?_, ?_, ?_⟩ <;> simp [GState.init]
 
 theorem isOn_iff (s : GState R O) :
-    s.isOn = true ↔ s.blocker = false ∧ s.resTog = [] ∧ s.objTog = [] ∧ s.leaked = [] := by
+    s.isOn = true ↔ s.blocker = false ∧ s.resTog = [] ∧ s.objTog = [] ∧ s.leaked = [] ∧ s.leakedK = [] := by
   simp [GState.isOn, and_assoc]
 
 /-- whoever sees the set on sees a complete, listed and indexed start-up -/
 theorem ready_of_isOn {s : GState R O} (hi : Inv s) (hon : s.isOn = true) : Ready s := by
-  obtain ⟨hb, hr, ho, hlk⟩ := (isOn_iff s).1 hon
+  obtain ⟨hb, hr, ho, hlk, _⟩ := (isOn_iff s).1 hon
   have hsp : s.spawning = false := by
     cases h : s.spawning with
     | false => rfl
@@ -91,7 +90,7 @@ theorem started_of_worker {s : GState R O} (hi : Inv s) {ro : R × O} {w : Worke
   cases hs : s.started with
   | true => rfl
   | false =>
-    have := (hi.c0 hs).2.2.2.2 ro
+    have := (hi.c0 hs).2.2.2 ro
     simp [this] at h
 
 theorem started_of_spawning {s : GState R O} (hi : Inv s) (h : s.spawning = true) : s.started = true := by
@@ -99,18 +98,27 @@ theorem started_of_spawning {s : GState R O} (hi : Inv s) (h : s.spawning = true
   | true => rfl
   | false => have := (hi.c0 hs).1; simp [h] at this
 
-/-- the momentary readiness of everything spawned so far implies the first batch's readiness -/
-theorem ready1_of_ready {s : GState R O} (hi : Inv s) (hst : s.started = true) (h : Ready s) : Ready1 s := by
-  obtain ⟨_, hsp, _, hl, hx⟩ := h
-  exact ⟨hi.c7 hst hsp, fun r hr => hl r (hi.c8 r hr), fun ro hro _ => hx ro hro⟩
+/-- the momentary readiness of everything spawned so far (seen with the set on, hence with nothing
+    leaked) implies the readiness of the start-up kinds -/
+theorem ready1_of_ready {s : GState R O} (hi : Inv s) (hlk : s.leakedK = []) (h : Ready s) : Ready1 s := by
+  obtain ⟨_, _, _, hl, hx⟩ := h
+  refine ⟨?_, fun ro hro _ => hx ro hro⟩
+  intro r hr
+  rcases hi.c8 r hr with h1 | h1 | h1
+  · exact h1
+  · exact hl r h1
+  · simp [hlk] at h1
+
+theorem ready1_of_isOn {s : GState R O} (hi : Inv s) (hon : s.isOn = true) : Ready1 s :=
+  ready1_of_ready hi ((isOn_iff s).1 hon).2.2.2.2 (ready_of_isOn hi hon)
 
 theorem ready1_mono {s s' : GState R O} (h : Ready1 s)
-    (h1 : s'.firstDone = s.firstDone) (h2 : s'.first = s.first)
+    (h2 : s'.first = s.first)
     (h5 : ∀ r, r ∈ s.listed → r ∈ s'.listed)
     (h6 : ∀ ro, ro ∈ s'.listing → ro.1 ∈ s.first → ro ∈ s.listing)
     (h7 : ∀ ro, ro ∈ s.indexedOnce → ro ∈ s'.indexedOnce) : Ready1 s' := by
-  obtain ⟨a, b, c⟩ := h
-  refine ⟨h1 ▸ a, ?_, ?_⟩
+  obtain ⟨b, c⟩ := h
+  refine ⟨?_, ?_⟩
   · intro r hr; rw [h2] at hr; exact h5 r (b r hr)
   · intro ro hro hf; rw [h2] at hf; exact h7 ro (c ro (h6 ro hro hf) hf)
 
@@ -121,7 +129,7 @@ theorem inv_setPc {s : GState R O} (hi : Inv s) (ro : R × O) (w : Worker) (pc :
     (ha : s.everOn = false → pc = .queued ∨ pc = .indexed ∨ pc = .waiting ∨ pc = .idle) :
     Inv (setPc s ro w pc) := by
   have hst := started_of_worker hi hw
-  refine ⟨?_, hi.c1, hi.c1', hi.c2, hi.c3, hi.c4, hi.c4', ?_, hi.c6, hi.c7, hi.c8, ?_, hi.b⟩
+  refine ⟨?_, hi.c1, hi.c1', hi.c2, hi.c3, hi.c4, hi.c4', ?_, hi.c6, hi.c8, ?_, hi.b⟩
   · intro h; simp [setPc, hst] at h
   · intro ro' w' hw' hpc hpc2
     simp only [setPc] at hw'
@@ -169,7 +177,7 @@ theorem step_inv {s s' : GState R O} (l : Label R O) (hi : Inv s) (h : step .non
     split at h
     · simp only [Option.some.injEq] at h
       subst h
-      exact ⟨by simp, by simp, by simp, hi.c2, hi.c3, hi.c4, hi.c4', hi.c5, hi.c6, by simp, hi.c8, hi.a, hi.b⟩
+      exact ⟨by simp, by simp, by simp, hi.c2, hi.c3, hi.c4, hi.c4', hi.c5, hi.c6, hi.c8, hi.a, hi.b⟩
     · cases h
   | spawn r =>
     simp only [step] at h
@@ -187,7 +195,7 @@ theorem step_inv {s s' : GState R O} (l : Label R O) (hi : Inv s) (h : step .non
         have hst := started_of_spawning hi hsp
         have hkeep : ∀ r0 x, aget r0 s.spawned = some x → aget r0 (s.spawned ++ [(r', ind)]) = some x := by
           intro r0 x h0; simp [aget_append_single, h0]
-        refine ⟨by simp [hst], hi.c1, by simp [hsp], ?_, hi.c3, hi.c4, ?_, hi.c5, ?_, ?_, ?_, hi.a, ?_⟩
+        refine ⟨by simp [hst], hi.c1, by simp [hsp], ?_, hi.c3, hi.c4, ?_, hi.c5, ?_, ?_, hi.a, ?_⟩
         · intro r0 hr0 hnl
           simp only [aget_append_single] at hr0
           cases hg0 : aget r0 s.spawned with
@@ -219,27 +227,33 @@ theorem step_inv {s s' : GState R O} (l : Label R O) (hi : Inv s) (h : step .non
           cases hg0 : aget r0 s.spawned with
           | none => simp [hg0] at hs0
           | some x => simp [hkeep r0 x hg0]
-        · intro _ h2; simp [hsp] at h2
         · -- c8
           intro r0 hr0
-          have hr0' : r0 ∈ (if (ind && !s.firstDone) = true then sadd r' s.first else s.first) := hr0
-          show aget r0 (s.spawned ++ [(r', ind)]) = some true
-          by_cases hc : (ind && !s.firstDone) = true
+          have hr0' : r0 ∈ (if (ind && !s.everOn) = true then sadd r' s.first else s.first) := hr0
+          show r0 ∈ s.listed ∨ aget r0 (s.spawned ++ [(r', ind)]) = some true ∨ r0 ∈ s.leakedK
+          have hold : r0 ∈ s.first → r0 ∈ s.listed ∨ aget r0 (s.spawned ++ [(r', ind)]) = some true ∨ r0 ∈ s.leakedK := by
+            intro h0
+            rcases hi.c8 r0 h0 with h1 | h1 | h1
+            · exact Or.inl h1
+            · exact Or.inr (Or.inl (hkeep r0 true h1))
+            · exact Or.inr (Or.inr h1)
+          by_cases hc : (ind && !s.everOn) = true
           · rw [if_pos hc, mem_sadd] at hr0'
             rcases hr0' with h0 | h0
             · subst h0
               have hind : ind = true := by
                 simp only [Bool.and_eq_true] at hc; exact hc.1
-              simp [aget_append_single, hnone, hind]
-            · exact hkeep r0 true (hi.c8 r0 h0)
+              exact Or.inr (Or.inl (by simp [aget_append_single, hnone, hind]))
+            · exact hold h0
           · rw [if_neg hc] at hr0'
-            exact hkeep r0 true (hi.c8 r0 hr0')
+            exact hold hr0'
         · -- b
           intro he
-          have hb := hi.b he
-          refine ready1_mono hb rfl ?_ (fun _ h => h) (fun _ h _ => h) (fun _ h => h)
-          show (if (ind && !s.firstDone) = true then sadd r' s.first else s.first) = s.first
-          simp [hb.1]
+          have he' : s.everOn = true := he
+          have hb := hi.b he'
+          refine ready1_mono hb ?_ (fun _ h => h) (fun _ h _ => h) (fun _ h => h)
+          show (if (ind && !s.everOn) = true then sadd r' s.first else s.first) = s.first
+          simp [he']
       · simp [hg] at h
   | spawnEnd =>
     simp only [step] at h
@@ -248,9 +262,7 @@ theorem step_inv {s s' : GState R O} (l : Label R O) (hi : Inv s) (h : step .non
       simp only [Bool.and_eq_true, List.isEmpty_iff] at hg
       subst h
       have hst := started_of_spawning hi hg.1
-      refine ⟨by simp [hst], by simp, by simp [hg.2], hi.c2, hi.c3, hi.c4, hi.c4', hi.c5, hi.c6, by simp, hi.c8, hi.a, ?_⟩
-      intro he
-      exact ready1_mono (hi.b he) (by simp [(hi.b he).1]) rfl (fun _ h => h) (fun _ h _ => h) (fun _ h => h)
+      exact ⟨by simp [hst], by simp, by simp [hg.2], hi.c2, hi.c3, hi.c4, hi.c4', hi.c5, hi.c6, hi.c8, hi.a, hi.b⟩
     · simp [hg] at h
   | check r o on =>
     simp only [step] at h
@@ -265,9 +277,9 @@ theorem step_inv {s s' : GState R O} (l : Label R O) (hi : Inv s) (h : step .non
         · simp only [hon, if_true, Option.some.injEq] at h
           have hison : s.isOn = true := by rw [← hg.2.1]; exact hon
           have hready := ready_of_isOn hi hison
-          have hready1 := ready1_of_ready hi hst hready
+          have hready1 := ready1_of_isOn hi hison
           subst h
-          refine ⟨by simp [hst], hi.c1, hi.c1', hi.c2, hi.c3, (fun _ _ => rfl), ?_, hi.c5, ?_, hi.c7, hi.c8,
+          refine ⟨by simp [hst], hi.c1, hi.c1', hi.c2, hi.c3, (fun _ _ => rfl), ?_, hi.c5, ?_, hi.c8,
                   (fun he => by simp at he), (fun _ => hready1)⟩
           · intro r0 hd hr0
             exact hready.2.2.2.1 r0 hr0
@@ -279,7 +291,7 @@ theorem step_inv {s s' : GState R O} (l : Label R O) (hi : Inv s) (h : step .non
             · exact hi.c6 r0 h0
         · simp only [hon, Bool.false_eq_true, if_false, Option.some.injEq] at h
           subst h
-          exact ⟨hi.c0, hi.c1, hi.c1', hi.c2, hi.c3, hi.c4, hi.c4', hi.c5, hi.c6, hi.c7, hi.c8, hi.a, hi.b⟩
+          exact ⟨hi.c0, hi.c1, hi.c1', hi.c2, hi.c3, hi.c4, hi.c4', hi.c5, hi.c6, hi.c8, hi.a, hi.b⟩
       · cases h
   | arrive r o gated hasToggle =>
     simp only [step] at h
@@ -298,7 +310,7 @@ theorem step_inv {s s' : GState R O} (l : Label R O) (hi : Inv s) (h : step .non
             intro hind hnl hd
             exact hnl (hi.c4' r hd (hind ▸ hsp))
           subst h
-          refine ⟨by simp [hst], hi.c1, hi.c1', hi.c2, ?_, hi.c4, hi.c4', ?_, hi.c6, hi.c7, hi.c8, ?_, ?_⟩
+          refine ⟨by simp [hst], hi.c1, hi.c1', hi.c2, ?_, hi.c4, hi.c4', ?_, hi.c6, hi.c8, ?_, ?_⟩
           · -- c3
             intro ro hro hni
             have hro' : ro ∈ (if (ind && !decide (r ∈ s.listed)) = true then sadd (r, o) s.listing
@@ -348,7 +360,7 @@ theorem step_inv {s s' : GState R O} (l : Label R O) (hi : Inv s) (h : step .non
           · -- b
             intro he
             have hready : Ready1 s := hi.b he
-            refine ready1_mono hready rfl rfl (fun _ h => h) ?_ (fun _ h => h)
+            refine ready1_mono hready rfl (fun _ h => h) ?_ (fun _ h => h)
             intro ro hro hf
             have hro' : ro ∈ (if (ind && !decide (r ∈ s.listed)) = true then sadd (r, o) s.listing
                                else s.listing) := hro
@@ -357,7 +369,7 @@ theorem step_inv {s s' : GState R O} (l : Label R O) (hi : Inv s) (h : step .non
               simp only [Bool.and_eq_true, Bool.not_eq_true', decide_eq_false_iff_not] at hcond
               rcases hro' with h0 | h0
               · subst h0
-                exact absurd (hready.2.1 r hf) hcond.2
+                exact absurd (hready.1 r hf) hcond.2
               · exact h0
             · rw [if_neg hcond] at hro'
               exact hro'
@@ -374,7 +386,7 @@ theorem step_inv {s s' : GState R O} (l : Label R O) (hi : Inv s) (h : step .non
       · simp only [Option.some.injEq] at h
         subst h
         have hst := started_of_spawned hi hsp
-        refine ⟨by simp [hst], hi.c1, hi.c1', ?_, hi.c3, hi.c4, ?_, hi.c5, hi.c6, hi.c7, hi.c8, hi.a, ?_⟩
+        refine ⟨by simp [hst], hi.c1, hi.c1', ?_, hi.c3, hi.c4, ?_, hi.c5, hi.c6, ?_, hi.a, ?_⟩
         · intro r0 hr0 hnl
           have hnl' : r0 ∉ sadd r s.listed := hnl
           simp only [mem_sadd, not_or] at hnl'
@@ -387,7 +399,7 @@ theorem step_inv {s s' : GState R O} (l : Label R O) (hi : Inv s) (h : step .non
           rw [mem_sadd]
           exact Or.inr (hi.c4' r0 hd hr0)
         · intro he
-          exact ready1_mono (hi.b he) rfl rfl (fun r0 h => by simp [mem_sadd, h]) (fun _ h _ => h) (fun _ h => h)
+          exact ready1_mono (hi.b he) rfl (fun r0 h => by simp [mem_sadd, h]) (fun _ h _ => h) (fun _ h => h)
   | index r o =>
     simp only [step] at h
     cases hw : s.workers (r, o) with
@@ -402,8 +414,8 @@ theorem step_inv {s s' : GState R O} (l : Label R O) (hi : Inv s) (h : step .non
            (fun ro hro hni => hi.c3 ro hro (fun hm => hni (by simp [mem_sadd, hm]))),
            hi.c4, hi.c4',
            (fun ro w' hw' hpc' hpc2 => by simp [mem_sadd, hi.c5 ro w' hw' hpc' hpc2]),
-           hi.c6, hi.c7, hi.c8, hi.a,
-           (fun he => ready1_mono (hi.b he) rfl rfl (fun _ h => h) (fun _ h _ => h)
+           hi.c6, hi.c8, hi.a,
+           (fun he => ready1_mono (hi.b he) rfl (fun _ h => h) (fun _ h _ => h)
               (fun ro h => by simp [mem_sadd, h]))⟩
           hw (fun _ _ => by simp [mem_sadd]) (fun _ => Or.inr (Or.inl rfl))
         subst h
@@ -418,7 +430,7 @@ theorem step_inv {s s' : GState R O} (l : Label R O) (hi : Inv s) (h : step .non
       by_cases hpc : w.pc = .queued
       · simp only [hpc, if_true, Option.some.injEq] at h
         have hi' := inv_setPc (s := { s with failed := true }) (ro := (r, o)) (w := w) (pc := .idle)
-          ⟨hi.c0, hi.c1, hi.c1', hi.c2, hi.c3, hi.c4, hi.c4', hi.c5, hi.c6, hi.c7, hi.c8, hi.a, hi.b⟩
+          ⟨hi.c0, hi.c1, hi.c1', hi.c2, hi.c3, hi.c4, hi.c4', hi.c5, hi.c6, hi.c8, hi.a, hi.b⟩
           hw (fun _ h2 => absurd rfl h2) (fun _ => Or.inr (Or.inr (Or.inr rfl)))
         subst h
         exact hi'
@@ -449,7 +461,7 @@ theorem step_inv {s s' : GState R O} (l : Label R O) (hi : Inv s) (h : step .non
                 · simp [ht, mem_sdel, this, hne]
                 · simp [ht, this]
               · exact Or.inr this),
-           hi.c4, hi.c4', hi.c5, hi.c6, hi.c7, hi.c8, hi.a, hi.b⟩
+           hi.c4, hi.c4', hi.c5, hi.c6, hi.c8, hi.a, hi.b⟩
           hw (fun _ _ => hio) (fun _ => Or.inr (Or.inr (Or.inl rfl)))
         subst h
         exact hi'
@@ -467,7 +479,7 @@ theorem step_inv {s s' : GState R O} (l : Label R O) (hi : Inv s) (h : step .non
         have hio : (r, o) ∈ s.indexedOnce := hi.c5 (r, o) w hw (by simp [hg.1]) (by simp [hg.1])
         have hi' := inv_setPc (s := { s with everOn := true }) (ro := (r, o)) (w := w) (pc := .passed)
           ⟨(fun hs => by simp [hst] at hs),
-           hi.c1, hi.c1', hi.c2, hi.c3, (fun _ _ => rfl), hi.c4', hi.c5, hi.c6, hi.c7, hi.c8,
+           hi.c1, hi.c1', hi.c2, hi.c3, (fun _ _ => rfl), hi.c4', hi.c5, hi.c6, hi.c8,
            (fun he => by simp at he), (fun _ => hready1)⟩
           hw (fun _ _ => hio) (fun he => by simp at he)
         subst h
@@ -503,7 +515,7 @@ theorem step_inv {s s' : GState R O} (l : Label R O) (hi : Inv s) (h : step .non
             have := ((hi.a he).2 (r, o) w hw).2
             simp [hg] at this
         have hi' := inv_setPc (s := { s with handled := true }) (ro := (r, o)) (w := w) (pc := .handling)
-          ⟨hi.c0, hi.c1, hi.c1', hi.c2, hi.c3, hi.c4, hi.c4', hi.c5, hi.c6, hi.c7, hi.c8,
+          ⟨hi.c0, hi.c1, hi.c1', hi.c2, hi.c3, hi.c4, hi.c4', hi.c5, hi.c6, hi.c8,
            (fun he => by simp [hev] at he), hi.b⟩
           hw (fun _ _ => hio) (fun he => by simp [hev] at he)
         subst h
@@ -545,7 +557,7 @@ theorem step_inv {s s' : GState R O} (l : Label R O) (hi : Inv s) (h : step .non
       · simp only [hg, if_true, Option.some.injEq] at h
         subst h
         have hst := started_of_worker hi hw
-        refine ⟨by simp [hst], hi.c1, hi.c1', hi.c2, ?_, hi.c4, hi.c4', ?_, hi.c6, hi.c7, hi.c8, ?_, hi.b⟩
+        refine ⟨by simp [hst], hi.c1, hi.c1', hi.c2, ?_, hi.c4, hi.c4', ?_, hi.c6, hi.c8, ?_, hi.b⟩
         · intro ro hro hni
           have := hi.c3 ro hro hni
           show ro ∈ (if holds s (r, o) = true then sdel (r, o) s.objTog else s.objTog) ∨
